@@ -1273,7 +1273,7 @@ func (r *Run) opIntrospect(st Step) {
 			basic = &Basic{User: caller.ID, Pass: ""}
 		} else {
 			basic = &Basic{User: caller.ID, Pass: caller.Secret}
-			callerOK = true
+			callerOK = caller.Secret != "" // a confidential client without secret material (private_key_jwt) cannot use Basic
 		}
 	case "bad_secret":
 		basic = &Basic{User: caller.ID, Pass: caller.Secret + "x"}
